@@ -210,9 +210,30 @@ func (w *Wrapper) Set(key string, val any) {
 func (w *Wrapper) Copy() Resource {
 	nw := Wrap(reflect.New(w.val.Type()).Interface())
 
+	// ID
+	nw.SetID(w.GetID())
+
 	// Attributes
 	for _, attr := range w.Attrs() {
-		nw.Set(attr.Name, w.Get(attr.Name))
+		switch v := w.Get(attr.Name).(type) {
+		case []byte:
+			// Slices are copied so that the copy does not
+			// share its memory with the original.
+			if v != nil {
+				v = append([]byte{}, v...)
+			}
+
+			nw.Set(attr.Name, v)
+		case *[]byte:
+			if v != nil {
+				nv := append([]byte{}, *v...)
+				v = &nv
+			}
+
+			nw.Set(attr.Name, v)
+		default:
+			nw.Set(attr.Name, v)
+		}
 	}
 
 	// Relationships
@@ -220,7 +241,12 @@ func (w *Wrapper) Copy() Resource {
 		if rel.ToOne {
 			nw.Set(rel.FromName, w.Get(rel.FromName).(string))
 		} else {
-			nw.Set(rel.FromName, w.Get(rel.FromName).([]string))
+			ids := w.Get(rel.FromName).([]string)
+			if ids != nil {
+				ids = append([]string{}, ids...)
+			}
+
+			nw.Set(rel.FromName, ids)
 		}
 	}
 
